@@ -175,9 +175,12 @@ CLAIMED = {
         category="model_checking",
         text="MC_Families shows the spec's own constructions of every family have exactly the closed-form (n,k,d), are cyclic / divisible by g(X) and "
              "meet the sphere-packing bound. For every catalogue object TLC computes the true minimum distance from the published generator matrix "
-             "(exhaustive enumeration for k<=16, H-column independence for d<=5 above), cyclic closure, g | X^n+1, divisibility and perfection.",
+             "(exhaustive enumeration for k<=16; above that, for n-k<=20, from the dual's weight distribution through the MacWilliams identity in modular "
+             "arithmetic - MC_MacWilliams checks the transform on the spec's own dual pairs; H-column independence for d<=5 otherwise), cyclic closure, "
+             "g | X^n+1, divisibility and perfection.",
         design_ref="7/C03",
-        note="Distance undecided (reported NOTCOVERED by the spec) when k>16 and d>5; RM m=6 / BCH mu=6 objects above these bounds are only partially covered.",
+        note="Distance undecided (reported NOTCOVERED by the spec) when k>16, n-k>20 and d>5 (outside the property's own quantifier); the dual's weight "
+             "distribution is a harness measurement on the published generator matrix.",
         technique="TLA+ spec Families/BlockCode + TLC: design-level model checking of constructions, trace validation of advertised parameters"),
     "C04": dict(
         category="model_checking",
@@ -200,7 +203,8 @@ CLAIMED = {
         category="model_checking",
         text="TLC explores every interleaving of Start/Finish/Collect of the ParallelPool specification (N<=5 branches, every pool size) "
              "and every add/remove/run history of the Pipelines list model; every schedule class and history TLC exports is replayed on "
-             "the real models (gated threads + forced collection order) and the recorded outcomes are validated by Trace_Pipelines.",
+             "the real models (gated threads + forced collection order) and the recorded outcomes are validated by Trace_Pipelines; "
+             "Branching histories (add / remove / default / run(x), conditions as sets of accepted inputs) are replayed on the real BranchingModel.",
         design_ref="7/C17",
         note="Trusts CPython's ThreadPoolExecutor FIFO start order and that as_completed may yield finished futures in any order; "
              "branch bodies are abstracted to Start/Finish.",
